@@ -293,6 +293,10 @@ func dispositionTable(prog *Program) (map[string]bool, *ssa.Function, string) {
 		}
 		bv, ok := sums[0].Results[0].BoolConst()
 		if !ok {
+			// a boolean expression over the operator: decided by the facts of the (single) path
+			bv, ok = evalBool(sums[0].St, sums[0].Results[0])
+		}
+		if !ok {
 			return nil, fn, "non-constant disposition for " + c.Name()
 		}
 		out[c.Name()] = bv
